@@ -31,7 +31,7 @@ def run(ctx: Context) -> None:
     ctx.rule('R06.2', "x is longitude and y is latitude: slot 0 of every point comes from the longitude / x handle, slot 1 from the latitude / y handle", floor=4)
     ctx.rule('R06.3', "stored bounds are accepted only with exactly the expected dimensions; synthesised bounds pair consecutive midpoints / average the four neighbouring centres, treat the outside of the grid as absent (not as missing cells), and blank every cell with a missing corner", floor=14)
     ctx.rule('R06.4', "coordinate and bounds variables named by attributes are looked up in a namespace that also contains xarray coordinates (dataset[...] or dataset.variables[...])", floor=8)
-    ctx.rule('R06.5', "variable scans read optional attributes defensively (.get / membership test / except KeyError)", floor=4)
+    ctx.rule('R06.5', "variable scans read optional attributes defensively (.get / membership test / except KeyError)", floor=2)
     ctx.rule('R06.6', "the validity filter dominates publication: invalid polygons are found over the full polygon array, replaced by None with an InvalidPolygonWarning, and the array is made read-only; the mask is derived from it", floor=6)
     ctx.rule('R06.7', "extent slots are (min x, min y, max x, max y) of the x / y handles; the generic geometry is the union of polygons[mask] and bounds its .bounds", floor=10)
     ctx.rule('R06.8', "UGRID faces are built from the normalised face-node table: primary dimension first, fill entries masked on the raw values, then start_index subtracted (shared with C10 R10.1)", floor=10)
@@ -442,7 +442,8 @@ def run(ctx: Context) -> None:
             for node in ast.walk(fi.node):
                 if isinstance(node, (ast.GeneratorExp, ast.ListComp)) and len(node.generators) == 1:
                     it_txt = norm_text(node.generators[0].iter)
-                    if any(it_txt.endswith(s) for s in ('.variables.items()', '.data_vars.items()', '.data_vars.values()', '.variables.values()', '.coords.items()')):
+                    if any(it_txt.endswith(s) for s in ('.variables.items()', '.data_vars.items()', '.data_vars.values()', '.variables.values()', '.coords.items()',
+                                                        '.variables', '.variables.keys()', '.data_vars', '.data_vars.keys()')):
                         scans.append((fi, node))
         for fi, node in scans:
             bad = []
